@@ -9,6 +9,6 @@ VARIABLES
   mode,
   \* @type: Str -> Int;
   saved
-NCalls == 27
+NCalls == 29
 INSTANCE SessionInd
 ====
